@@ -1,12 +1,11 @@
 SPECIFICATION Spec
-CONSTANTS T = 4
+CONSTANTS T = 20
           NI = 3
-          Labels = {"a", "A", "b"}
-          FS = {1, 2}
-          Step = 1
+          Labels = {"a", "b"}
+          FS = {1, 2, 5}
+          Step = 5
 INVARIANT FormulationsAgree
 INVARIANT SwapSym
 INVARIANT InRange
 INVARIANT PerfectWhenSame
-INVARIANT RelabelInv
 INVARIANT Export
